@@ -841,6 +841,16 @@ def _may_be_param(t: ast.AST, params: Sequence[str], depth: int = 0) -> Optional
                 return r
     if isinstance(t, ast.IfExp):
         return _may_be_param(t.body, params, depth + 1) or _may_be_param(t.orelse, params, depth + 1)
+    # numpy hands the same buffer on: asarray of an array of the requested dtype is the array itself, ravel / reshape / squeeze /
+    # transpose / view give views of it whenever they can
+    if isinstance(t, ast.Call) and not is_sym(t):
+        fn = call_fname(t)
+        if fn in ("asarray", "asanyarray", "atleast_1d", "atleast_2d") and t.args:
+            return _may_be_param(t.args[0], params, depth + 1)
+        if fn in ("ravel", "reshape", "squeeze", "transpose", "view", "swapaxes") and isinstance(t.func, ast.Attribute):
+            return _may_be_param(t.func.value, params, depth + 1) or (_may_be_param(t.args[0], params, depth + 1) if t.args and isinstance(t.func.value, ast.Name) and t.func.value.id in ("numpy", "np") else None)
+    if isinstance(t, ast.Attribute) and t.attr in ("T", "flat"):
+        return _may_be_param(t.value, params, depth + 1)
     return None
 
 
